@@ -315,6 +315,21 @@ Definition voronoi_clauses (ulps : Z) (denv : env) (sites : list pt) (cells : li
 Definition check_voronoi (ulps : Z) (denv : env) (sites : list pt) (cells : list vcell) : bool :=
   forallb snd (voronoi_clauses ulps denv sites cells).
 
+(* edges-only output (GEOS_VORONOI_ONLY_EDGES): every vertex of every returned line lies in the envelope and on a Voronoi edge:
+   a site s nearest to it (checked against every site) and another site t as near as s, within the vertex tolerance.
+   nearest_site only proposes s; the clauses below do not trust it. *)
+Definition nearest_site (v : pt) (sites : list pt) : option pt :=
+  fold_right (fun s acc => match acc with None => Some s | Some b => if dist2 v s <? dist2 v b then Some s else Some b end) None sites.
+Definition on_bisectorb (ulps mag : Z) (sites : list pt) (v : pt) : bool :=
+  match nearest_site v sites with
+  | None => false
+  | Some s => mem_pt s sites
+              && forallb (fun r => p52 * (dist2 v s - dist2 v r) <=? ulps * mag * 2 * l1 s r) sites
+              && existsb (fun t => negb (pt_eqb t s) && (p52 * (dist2 v t - dist2 v s) <=? ulps * mag * 2 * l1 s t)) sites
+  end.
+Definition check_voronoi_edges (ulps : Z) (denv : env) (sites : list pt) (lines : list (list pt)) : bool :=
+  forallb (fun l => forallb (fun v => in_envb denv v && on_bisectorb ulps (env_mag denv) sites v) l) lines.
+
 (* assignment of cells to sites when the output order is not the input order: the unique site inside the cell *)
 Definition sites_in (c : vcell) (sites : list pt) : list pt := filter (cell_containsb (cell_ccw c)) sites.
 Definition assign_sites (cells : list vcell) (sites : list pt) : option (list pt) :=
